@@ -10,8 +10,12 @@ Parties of every case
                    zero mean, result = centred / statistic (numpy float64 recomputation), unit std / unit norm,
                    idempotence, zero scale refused or skipped, finite values;
   Lean model     : `rebuild` (mask resize in binary64), `rebuildCentres`, `normalizeV`, `normalizeImg`, `normalizeS`,
-                   `gradient2` / `gradientFlat`, `igo2`, `es2`, `gauss2`, `noOpS`, `daisyShape` through the driver
-                   (exact rationals in, exact rationals out), and the regenerated effect table with its obligations.
+                   `gradient2` / `gradientFlat`, `igo2`, `es2`, `gauss2`, `noOpS`, `daisyShape`, `daisyPlumb`,
+                   `sumChannels2` through the driver (exact rationals in, exact rationals out), the regenerated effect
+                   table with its obligations, and the SOURCE TEXT of the feature code translated into Lean on every
+                   run (harness/trans_c18.py -> Generated/C18Src.lean) with the equalities `translated = Core model`
+                   (GenProps/C18Src.lean) and the property theorems restated for the translated code
+                   (GenProps/C18SrcProps.lean).
 """
 import json
 import math
@@ -26,7 +30,16 @@ INFO = dict(
               "every array-level feature; the size-changing branch in the code's own binary64 arithmetic, with the "
               "rounding function modelled over Q and its standard error model proved; gradient, no_op, IGO, ES, "
               "gaussian_filter and the DAISY size law inside the model; the normalisers over Q; invariants of arbitrary "
-              "feature sequences by induction; buffer-level frame theorems for 'never modifies its input') + a table of "
+              "feature sequences by induction; buffer-level frame theorems for 'never modifies its input') + the SOURCE "
+              "TEXT of the feature code translated into Lean on every run (harness/py2lean2.py + harness/py2lean2f.py + "
+              "harness/trans_c18.py -> Generated/C18Src.lean: the three decorators ndfeature / imgfeature / winitfeature, "
+              "rebuild_feature_image, rebuild_feature_image_with_centres, sample_mask_for_centres, lm_centres_correction, "
+              "normalize with its default scale function, normalize_std / normalize_norm / normalize_var with the "
+              "statistic each passes and the decorator each carries, gradient, gaussian_filter, igo, double_igo, es, no_op, "
+              "sum_channels, the option plumbing of daisy up to the call of _daisy, and the decorator of every "
+              "module-level feature) and proved equal, for all arguments, to the Core definitions the theorems are about "
+              "(GenProps/C18Src.lean), with the property theorems restated for the translated code "
+              "(GenProps/C18SrcProps.lean) + a table of "
               "observed effects of every exported feature regenerated from the live code on every run with decide "
               "obligations + model/implementation correspondence and an independent property oracle on every "
               "exported feature that imports in this environment",
@@ -48,7 +61,19 @@ INFO = dict(
                "overall, zero mean in every branch, unit variance resp. unit norm and idempotence (also up to the sign "
                "of the scale) under the contract sigma*sigma = var resp. nu*nu = sum of squares, a zero statistic "
                "(single-sample groups included) refused exactly when asked and skipped otherwise without ever dividing "
-               "by zero; masked images: masked pixels normalised, zeros outside, annotations kept. Tied to /repo by "
+               "by zero; masked images: masked pixels normalised, zeros outside, annotations kept; the option plumbing of "
+               "daisy (which rings / radius / sigmas / ring_radii reach _daisy, what is refused first) and sum_channels. "
+               "Tied to /repo by (0) the source translation: the text of menpo/feature/base.py, features.py, "
+               "visualize.py and predefined.py of the working tree is rewritten into Lean on every run and 31 equalities "
+               "`translated = Core model` (genNdfeature_eq, genImgfeature_eq, genWinitfeature_eq, genRebuild_eq, "
+               "genRebuildCentres_eq, genSampleMask_eq, genCentresCorrection_eq, genNormalizeRaw_stat / _default / _other, "
+               "genNormalize_stat, genNormalizeStd_eq / Norm / Var, genNoOp_eq, genGradientRaw_eq, genGaussianFilterRaw_eq, "
+               "genIgoRaw_eq, genDoubleIgo_eq, genEsRaw_eq, genSumChannelsRaw_eq, genDaisyRaw_eq, genDecorators_ok, …) are "
+               "re-proved for all arguments, so the theorems are about what the source says now: the isinstance dispatch "
+               "of the decorators, what is passed and what is rebuilt, the mask / landmark branches, the mode branches, "
+               "the zero-scale test and its two outcomes, which statistic each normaliser passes, which decorator each "
+               "feature carries (the normalisers built on normalize are @ndfeatures), the channel order of gradient, the "
+               "slice layout of igo / es, the per-channel loop of gaussian_filter, daisy's overriding of rings / radius; "
                "(1) the regenerated effect table: every exported feature and seven compositions on live read-only "
                "Image/MaskedImage: same kind out, same landmark groups, no attribute of the input changed, every "
                "exported decorated feature known to the model; (2) running every exported feature and compositions on "
@@ -57,7 +82,10 @@ INFO = dict(
                "extent sweep over (old, new) pairs classified exactly by what binary64 does with them, diffing "
                "kind/mask (every pixel)/landmarks/values against the Lean driver, with the oracle deciding the "
                "property on the real code.",
-    level_note="Trusted: Lean kernel; axioms propext/Classical.choice/Quot.sound; Python harness; driver parser. "
+    level_note="Trusted: Lean kernel; axioms propext/Classical.choice/Quot.sound; Python harness; driver parser; the "
+               "translator harness/py2lean2.py + py2lean2f.py and the C18 vocabulary harness/trans_c18.py + "
+               "Core/C18Src.lean (one Lean operation per numpy / menpo expression, with that expression's own meaning: "
+               "broadcasting, partial attribute access, slices with a step, slice assignment; `verbose` fixed to False). "
                "Contract parameters (not verified, checked numerically each run): np.std / np.linalg.norm / np.abs of a "
                "complex number return the non-negative square root of the exact variance / sum of squares / g_y^2+g_x^2; "
                "np.angle, sin, cos satisfy sin = g_x/|g|, cos = g_y/|g|, angle(0) = 0 and the double-angle identities; "
@@ -81,10 +109,14 @@ INFO = dict(
              "dsift / fast_dsift / vector_128_dsift / hellinger_vector_128_dsift (the only exported @winitfeature "
              "features) do not import here (cyvlfeat missing): winitfeature is proved generically and exercised "
              "with a synthetic window feature through the real decorator",
-             "sum_channels (menpo.feature.visualize, not one of the property's features) is covered by the wrapper "
-             "theorems, the effect table and the oracle only; the theorems about the numerical kernels are stated for "
-             "2-D images, their N-D variants on flat data (3-D gradient and gaussian_filter) are tied to them by a "
-             "per-case equality check in the driver and to the code by the correspondence"],
+             "the theorems about the numerical kernels (and the translation equalities of gradient / igo / es) are "
+             "stated for 2-D images, rectangular with at least one channel; their N-D variants on flat data (3-D "
+             "gradient and gaussian_filter) are tied to them by a per-case equality check in the driver and to the "
+             "code by the correspondence",
+             "integer pixel dtypes: every feature is run on uint8 / int16 / int32 / int64 images and arrays under the "
+             "oracle (both conventions agree, input untouched, annotations kept); gradient / igo / es / daisy refuse "
+             "uint8 (TypeError, in both conventions: inside the model), igo / es / gaussian_filter write their result "
+             "into an array of the input's integer dtype (truncated values): outside the exact model, oracle only"],
     assumptions=["numpy float64 arithmetic on small dyadic inputs is accurate to 1e-12 relative",
                  "features are deterministic functions of their input array",
                  "numpy's float64 division / multiplication / subtraction / addition round to nearest even (IEEE 754), "
@@ -142,7 +174,31 @@ THEOREMS = [
     # Part G: normalisers on degenerate data, idempotence up to sign
     "MenpoModel.C18.normalize_single_sample_per_channel", "MenpoModel.C18.normalize_single_sample_all",
     "MenpoModel.C18.normalize_std_idempotent_up_to_sign", "MenpoModel.C18.normalize_norm_idempotent_up_to_sign",
+    # Part H: the option plumbing of daisy, sum_channels (Props/C18Plumb.lean)
+    "MenpoModel.C18.daisyLayout_length", "MenpoModel.C18.daisyLayout_get", "MenpoModel.C18.daisyLayout_last",
+    "MenpoModel.C18.daisyPlumb_defaults", "MenpoModel.C18.daisyPlumb_ring_radii", "MenpoModel.C18.daisyPlumb_sigmas",
+    "MenpoModel.C18.daisyPlumb_both", "MenpoModel.C18.daisyPlumb_refusals", "MenpoModel.C18.daisyPlumb_ok_complete",
+    "MenpoModel.C18.sumAxis0_cons_cons", "MenpoModel.C18.sumChannels2_one_channel", "MenpoModel.C18.sumChannels2_all",
+    "MenpoModel.C18.elem_addChan",
 ]
+
+# the translated source = the Core model (GenProps/C18Src.lean; `Generated/C18Src.lean` is rewritten by every run)
+SRC_IMPORT = "MenpoModel.GenProps.C18Src"
+SRC_THEOREMS = ["MenpoModel.GenProps.C18Src." + t for t in (
+    "genSampleMask_eq genCentresCorrection_eq genRebuild_eq genRebuildCentres_eq genNdfeature_eq genImgfeature_eq "
+    "genWinitfeature_eq genNormalizeRaw_stat genNormalizeRaw_default genNormalizeRaw_other genNormalize_stat "
+    "genNormalize_default genNormalize_on_array genNormalizeStd_eq genNormalizeNorm_eq genNormalizeVar_eq genNoOp_eq "
+    "genGradientRaw_eq genGradient_eq genGaussianFilterRaw_eq genGaussianFilter_eq genDecorators_ok "
+    "genGradient_on_array genIgoRaw_eq genIgo_eq genDoubleIgo_eq genEsRaw_eq genSumChannelsRaw_eq genSumChannels_eq "
+    "genDaisyRaw_eq genDaisy_eq genDefaults_ok "
+    # GenProps/C18SrcProps.lean: the property theorems restated for the translated code
+    "src_ndfeature_agrees src_ndfeature_error_agrees src_imgfeature_agrees src_winitfeature_agrees "
+    "src_feature_keeps_kind src_feature_same_size_keeps_annotations src_feature_new_size_rescales "
+    "src_normalize_zero_scale src_normalize_skip_total src_normalize_never_nonfinite src_normalize_per_channel "
+    "src_normalize_all src_normalize_annotations src_normalisers_agree src_normalisers_spec "
+    "src_gradient_channel_order").split()]
+SRC_IMPORTS = [SRC_IMPORT, "MenpoModel.GenProps.C18SrcProps"]
+THEOREMS += SRC_THEOREMS
 
 NORMALISERS = ("normalize", "normalize_std", "normalize_norm", "normalize_var")
 UNAVAILABLE = ("dsift", "fast_dsift", "vector_128_dsift", "hellinger_vector_128_dsift")
@@ -272,10 +328,18 @@ def gen_mask(rng, h, w, flavour):
 
 
 def gen_lms(rng, h, w):
+    """landmark groups; one point in four sits on a border (first / last row or column, the far corner of the extent
+    `(h, w)`) or slightly outside the image (negative, beyond the last pixel): legal in menpo, and exactly where a
+    'keep the landmarks inside' step would show"""
+    def coord(n):
+        r = rng.random()
+        if r < 0.75:
+            return rng.randint(0, 4 * (n - 1)) / 4.0
+        return rng.choice([0.0, float(n - 1), float(n), n - 0.75, n - 0.25, -0.5, -1.25, n + 0.5, n + 2.0])
     groups = []
     for g in range(rng.choice([0, 1, 1, 2, 3])):
         n = rng.randint(1, 5)
-        pts = [[rng.randint(0, 4 * (h - 1)) / 4.0, rng.randint(0, 4 * (w - 1)) / 4.0] for _ in range(n)]
+        pts = [[coord(h), coord(w)] for _ in range(n)]
         groups.append({"key": "g%d" % g, "cls": rng.choice(["PointCloud", "PointUndirectedGraph", "Labelled"]),
                        "points": pts})
     return groups
@@ -368,9 +432,48 @@ def lms_state(img):
     return out
 
 
+def daisy_effective(params):
+    """(radius, rings) that reach `_daisy` by the documented overriding rules, None when the call is refused first
+    (inconsistent lengths, empty ring_radii, unknown normalisation)"""
+    sg, rr = params.get("sigmas"), params.get("ring_radii")
+    if params.get("normalization") not in ("l1", "l2", "daisy", "off", None):
+        return None
+    if sg is not None and rr is not None and len(sg) - 1 != len(rr):
+        return None
+    if rr is not None and not rr:
+        return None
+    radius = rr[-1] if rr is not None else params["radius"]
+    rings = len(sg) - 1 if sg is not None else (len(rr) if rr is not None else params["rings"])
+    return radius, rings
+
+
+class daisy_spy:
+    """records what `menpo.feature.daisy` hands to `_daisy` (the function imports it from its module on every call)"""
+
+    def __enter__(self):
+        import importlib
+        import inspect
+        D = importlib.import_module("menpo.external.skimage._daisy")     # (the package re-exports the function under
+        # the same name, so `import … as` would give the function)
+        self.mod, self.orig, self.calls = D, D._daisy, []
+        sig = inspect.signature(self.orig)
+
+        def spy(*a, **kw):
+            b = sig.bind(*a, **kw)
+            self.calls.append({k: v for k, v in b.arguments.items() if k != "img"})
+            return self.orig(*a, **kw)
+        D._daisy = spy
+        return self
+
+    def __exit__(self, *exc):
+        self.mod._daisy = self.orig
+        return False
+
+
 def min_size(name, params):
     if name == "daisy":
-        return 2 * params["radius"] + 1
+        eff = daisy_effective(params)
+        return 2 * int(eff[0] if eff else params["radius"]) + 1
     if name == "syn_crop":
         return 2 * params["b"] + 1
     if name == "compose":
@@ -390,9 +493,27 @@ def gen_feature(rng, pool):
     if name == "igo":
         return name, {"double_angles": rng.random() < 0.5}
     if name == "daisy":
-        return name, {"step": rng.randint(1, 4), "radius": rng.randint(1, 4), "rings": rng.randint(1, 2),
-                      "histograms": rng.randint(1, 3), "orientations": rng.randint(2, 4),
-                      "normalization": rng.choice(["l1", "l2", "daisy", None])}
+        p = {"step": rng.randint(1, 4), "radius": rng.randint(1, 4), "rings": rng.randint(1, 2),
+             "histograms": rng.randint(1, 3), "orientations": rng.randint(2, 4),
+             "normalization": rng.choice(["l1", "l2", "daisy", None, "off"])}
+        # the options that override rings / radius (and the refusals before `_daisy` runs)
+        v = rng.choice(["default"] * 6 + ["sigmas", "radii", "both", "both-bad", "radii-empty", "bad-normalization"])
+        if v in ("sigmas", "both", "both-bad"):
+            p["sigmas"] = [rng.choice([0.5, 1.0, 1.5, 2.0]) for _ in range(rng.randint(1, 3))]
+        if v == "radii":
+            p["ring_radii"] = sorted(rng.sample([1, 2, 3, 4], rng.randint(1, 2)))
+        if v == "both":
+            k = len(p["sigmas"]) - 1
+            p["ring_radii"] = sorted(rng.sample([1, 2, 3, 4], k))
+        if v == "both-bad":
+            p["ring_radii"] = sorted(rng.sample([1, 2, 3, 4], len(p["sigmas"]) % 3 + 1))
+            if len(p["sigmas"]) - 1 == len(p["ring_radii"]):
+                p["ring_radii"] = p["ring_radii"] + [4]
+        if v == "radii-empty":
+            p["ring_radii"] = []
+        if v == "bad-normalization":
+            p["normalization"] = "l3"
+        return name, p
     if name == "sum_channels":
         return name, {"channels": None}
     if name in ("normalize_std", "normalize_norm", "normalize_var"):
@@ -446,6 +567,8 @@ def gen_wrapper_spec(rng, pool=WRAP_POOL):
     if name == "daisy" and rng.random() < 0.15:
         h = lo                                         # output extent 1: the degenerate mask axis
     c = rng.randint(1, 4)
+    if name == "sum_channels" and rng.random() < 0.5:
+        params = {"channels": [rng.randrange(c) for _ in range(rng.randint(1, 3))]}
     flavour = rng.choice(["random", "random", "random", "ramp", "constant-channel"])
     if name in NORMALISERS or name == "compose":
         flavour = rng.choice(["random", "random", "ramp"])
@@ -453,13 +576,22 @@ def gen_wrapper_spec(rng, pool=WRAP_POOL):
         if name in NORMALISERS:
             params["error_on_divide_by_zero"] = True
     kind = rng.choice(["Image", "MaskedImage", "MaskedImage"])
-    spec = {"feature": name, "params": params, "kind": kind, "dtype": rng.choice(["float64", "float64", "float32"]),
-            "pixels": gen_pixels(rng, c, h, w, flavour),
+    dtype = rng.choice(["float64"] * 5 + ["float32"] * 3 + ["uint8", "int16", "int32", "int64"])
+    px = gen_pixels(rng, c, h, w, flavour)
+    if not dtype.startswith("float"):
+        px = integer_pixels(px, dtype)
+    spec = {"feature": name, "params": params, "kind": kind, "dtype": dtype,
+            "pixels": px,
             "mask": gen_mask(rng, h, w, rng.choice(["random", "random", "block", "all-true", "all-false"]))
             if kind == "MaskedImage" else None,
             "lms": gen_lms(rng, h, w)}
     spec.update(gen_options(rng))
     return spec
+
+
+def integer_pixels(px, dtype):
+    """the same (dyadic) pixels as whole numbers that the integer dtype holds exactly; uint8 needs non-negative values"""
+    return [[[float(abs(int(v * 8)) % 200 if dtype == "uint8" else int(v * 8)) for v in row] for row in ch] for ch in px]
 
 
 VOLUME_POOL = ["gradient", "gradient", "gaussian_filter", "no_op", "normalize_std", "normalize_norm", "normalize_var",
@@ -580,7 +712,7 @@ def gen_normaliser_spec(rng, zero=None):
     px = gen_pixels(rng, c, h, w, flavour)
     if not dtype.startswith("float"):
         # integer pixels (the normalisers promote to float64); uint8 needs non-negative values
-        px = [[[float(abs(int(v * 8)) % 200 if dtype == "uint8" else int(v * 8)) for v in row] for row in ch] for ch in px]
+        px = integer_pixels(px, dtype)
     spec = {"feature": name, "params": params, "kind": kind, "dtype": dtype,
             "pixels": px, "mask": mask, "lms": gen_lms(rng, max(h, 2), max(w, 2))}
     spec.update(gen_options(rng))
@@ -907,6 +1039,80 @@ def kernel_model_query(run, spec, out, rp):
         run.ask("gauss", data_s + " " + " ".join(ks), handler, rp)
 
 
+def sum_channels_query(run, spec, out, rp):
+    """sum_channels against the model's `sumChannels2` (exact)"""
+    import numpy as np
+    px = spec["pixels"]
+    c, h, w = len(px), len(px[0]), len(px[0][0])
+    ch = spec["params"].get("channels")
+    tol = tol_of(spec["dtype"])
+    got = np.asarray(out.pixels, dtype=float).ravel().tolist()
+    run.ctx.count("kernel-model:sum_channels")
+
+    def handler(rep):
+        t = rep.split()
+        if t[0] != "ok" or len(t) - 1 != len(got):
+            return "model %r (%d values), implementation %d values" % (rep[:40], len(t) - 1, len(got))
+        big = max([1.0] + [abs(v) for v in got])
+        bad = [i for i, (mv, gv) in enumerate(zip(t[1:], got)) if not abs(float(F(mv)) - gv) <= tol * (1 + big)]
+        return None if not bad else "value %d: model %r implementation %r" % (bad[0], float(F(t[1 + bad[0]])), got[bad[0]])
+    run.ask("sumch", "%d %d %d %s %s" % (c, h, w, " ".join(fq(v) for chn in px for row in chn for v in row),
+                                         "0" if ch is None else "1 %d %s" % (len(ch), " ".join(map(str, ch)))), handler, rp)
+
+
+def daisy_plumb_query(run, spec, calls, n_img_calls, exc_img, exc_arr, rp):
+    """what `menpo.feature.daisy` handed to `_daisy` in the two calling conventions (recorded by `daisy_spy`) against the
+    model's `daisyPlumb` (= the translated option plumbing): overriding of rings / radius by sigmas / ring_radii, the
+    default layouts, `normalization=None`, and the refusals before `_daisy` runs"""
+    p = spec["params"]
+    ctx = run.ctx
+    nz = p.get("normalization")
+    nz_tok = "none" if nz is None else (nz if nz in ("l1", "l2", "daisy", "off") else "other")
+
+    def opt(l):
+        return "0" if l is None else "1 %d %s" % (len(l), " ".join(fq(float(v)) for v in l))
+    args = "%d %s %d %d %d %s %s %s" % (p["step"], fq(float(p["radius"])), p["rings"], p["histograms"], p["orientations"],
+                                      nz_tok, opt(p.get("sigmas")), opt(p.get("ring_radii")))
+    ctx.count("daisy-options:%s%s%s" % ("sigmas+" if p.get("sigmas") is not None else "",
+                                       "ring_radii+" if p.get("ring_radii") is not None else "",
+                                       "refused" if daisy_effective(p) is None else "accepted"))
+    img_calls, arr_calls = calls[:n_img_calls], calls[n_img_calls:]
+
+    def handler(rep):
+        t = rep.split()
+        if t[0] == "err":
+            want = {"value": "ValueError", "index": "IndexError"}.get(t[1], t[1])
+            for who, e, cs in (("image", exc_img, img_calls), ("array", exc_arr, arr_calls)):
+                if cs:
+                    return "model refuses the options (%s) but the %s call reached _daisy with %r" % (rep, who, cs[0])
+                if e is None or type(e).__name__ != want:
+                    return "model: %s before _daisy; %s call: %s" % (want, who, "returned" if e is None else type(e).__name__)
+            return None
+        if t[0] != "ok":
+            return "model %r" % rep[:60]
+        iS, iR = t.index("S"), t.index("R")
+        m = {"step": int(t[1]), "radius": float(F(t[2])), "rings": int(t[3]), "histograms": int(t[4]),
+             "orientations": int(t[5]), "normalization": t[6],
+             "sigmas": [float(F(v)) for v in t[iS + 2:iR]], "ring_radii": [float(F(v)) for v in t[iR + 2:]]}
+        for who, cs in (("image", img_calls), ("array", arr_calls)):
+            if len(cs) != 1:
+                return "the %s call reached _daisy %d times (model: once, with %r)" % (who, len(cs), m)
+            kw = cs[0]
+            for k in ("step", "rings", "histograms", "orientations"):
+                if int(kw[k]) != m[k]:
+                    return "%s call: _daisy got %s=%r, model %r" % (who, k, kw[k], m[k])
+            if kw["normalization"] != m["normalization"]:
+                return "%s call: _daisy got normalization=%r, model %r" % (who, kw["normalization"], m["normalization"])
+            if not close(float(kw["radius"]), m["radius"], abs(m["radius"])):
+                return "%s call: _daisy got radius=%r, model %r" % (who, kw["radius"], m["radius"])
+            for k in ("sigmas", "ring_radii"):
+                got = [float(v) for v in kw[k]]
+                if len(got) != len(m[k]) or not all(close(a, b, abs(b)) for a, b in zip(got, m[k])):
+                    return "%s call: _daisy got %s=%r, model %r" % (who, k, got, m[k])
+        return None
+    run.ask("daisyplumb", args, handler, rp)
+
+
 def volume_gradient_query(run, spec, out, rp):
     """gradient of a 3-D image against the N-D (flat) gradient of the model"""
     import numpy as np
@@ -983,14 +1189,24 @@ def wrapper_case(run, spec, model=True):
     if name == "compose":
         ctx.count("compose:" + "+".join(n for n, _ in params["steps"]))
     exc_img = exc_arr = out = out_arr = None
+    spy = daisy_spy() if name == "daisy" else None
+    if spy:
+        spy.__enter__()
     try:
-        out = apply_feature(name, params, img)
-    except Exception as e:  # noqa
-        exc_img = e
-    try:
-        out_arr = apply_feature(name, params, arr)
-    except Exception as e:  # noqa
-        exc_arr = e
+        try:
+            out = apply_feature(name, params, img)
+        except Exception as e:  # noqa
+            exc_img = e
+        n_img_calls = len(spy.calls) if spy else 0
+        try:
+            out_arr = apply_feature(name, params, arr)
+        except Exception as e:  # noqa
+            exc_arr = e
+    finally:
+        if spy:
+            spy.__exit__()
+    if spy and model:
+        daisy_plumb_query(run, spec, spy.calls, n_img_calls, exc_img, exc_arr, rp)
     # input untouched (both conventions), whatever happened
     ctx.check(digest(img) == before_img, site + ".input", "image-modified",
               "the input image (pixels / mask / landmarks) was modified by the call", rp)
@@ -1047,8 +1263,12 @@ def wrapper_case(run, spec, model=True):
         ctx.check(out.pixels.dtype == out_arr.dtype, site + ".agree", "dtype-differs",
                   "dtype %s vs %s" % (out.pixels.dtype, out_arr.dtype), rp)
     ctx.count("size:" + ("changed" if tuple(out.shape) != tuple(img.shape) else "kept"))
-    if model and name in KERNEL_FEATURES and arr.ndim == 3 and arr.size <= 200:
+    exact_in = spec["dtype"].startswith("float") or name in ("gradient", "no_op")   # integer pixels: igo / es /
+    # gaussian_filter write their result into an array of the input's integer dtype (truncated): oracle only
+    if model and name in KERNEL_FEATURES and arr.ndim == 3 and arr.size <= 200 and exact_in:
         kernel_model_query(run, spec, out, rp)
+    elif model and name == "sum_channels" and arr.ndim == 3 and arr.size <= 300:
+        sum_channels_query(run, spec, out, rp)
     elif model and name == "gradient" and arr.ndim == 4 and arr.size <= 200:
         volume_gradient_query(run, spec, out, rp)
     elif model and name == "gaussian_filter" and arr.ndim == 4 and arr.size <= 250:
@@ -1061,8 +1281,9 @@ def wrapper_case(run, spec, model=True):
             return None if rep.split() == ["ok"] + [str(v) for v in got_shape] else \
                 "daisy output shape: model %r implementation %r" % (rep, got_shape)
         ctx.count("kernel-model:daisy-shape")
-        run.ask("daisyshape", "%d %d %d %d %d %d %d" % (arr.shape[1], arr.shape[2], params["radius"], params["step"],
-                                                       params["rings"], params["histograms"], params["orientations"]),
+        eff_radius, eff_rings = daisy_effective(params)      # what the options make of radius / rings
+        run.ask("daisyshape", "%d %d %d %d %d %d %d" % (arr.shape[1], arr.shape[2], eff_radius, params["step"],
+                                                       eff_rings, params["histograms"], params["orientations"]),
                 handler, rp)
     if name == "syn_window":
         check_window(run, spec, img, out, site, rp, model)
@@ -1455,6 +1676,61 @@ def generated(ctx):
     return ok
 
 
+def broken_theorems(errors, rel):
+    """names of the theorems of lean/<rel> in which the build reported an error (`file:line:col: error`)"""
+    import os
+    import re
+    try:
+        text = open(os.path.join(common.LEAN, rel)).read().splitlines()
+    except OSError:
+        return []
+    out = []
+    for e in errors:
+        m = re.search(re.escape(rel) + r":(\d+):", e)
+        if not m:
+            continue
+        for ln in range(min(int(m.group(1)), len(text)) - 1, -1, -1):
+            t = re.match(r"\s*theorem\s+(\S+)", text[ln])
+            if t:
+                if t.group(1) not in out:
+                    out.append(t.group(1))
+                break
+    return out
+
+
+def generated_source(ctx):
+    """the SOURCE TEXT of the feature code (decorators, rebuild functions, normalize and the normalisers, gradient,
+    gaussian_filter, igo, es, no_op, sum_channels, double_igo, the option plumbing of daisy) translated into
+    `Generated/C18Src.lean` (harness/trans_c18.py) and proved equal to the Core model (`GenProps/C18Src.lean`).
+    An untranslatable function, a translated file that no longer elaborates or an equality that no longer proves is a
+    BROKEN OBLIGATION (then: directed search), never an infrastructure error."""
+    from . import trans_c18
+    n0 = len(ctx.broken_obligations)
+    try:
+        files, why = trans_c18.generated_files()
+    except Exception as e:      # the functions themselves are gone / moved: the tie is broken, not the harness
+        files, why = None, ["%s: %s" % (type(e).__name__, e)]
+    ctx.notes["source_translation"] = ("%d definitions translated from the source text of the working tree" % trans_c18.N_DEFS
+                                       if not why else "untranslatable: " + "; ".join(why))
+    if files is None:
+        ctx.broken_obligations.append({"targets": list(trans_c18.GEN_TARGETS), "errors": why, "output_tail": ""})
+        ok = False
+    else:
+        ok = common.build_generated(ctx, files, trans_c18.GEN_TARGETS, 0)
+    if not ok:
+        # the equalities are not audited on this run: they still count as (generated) obligations, one of them broken
+        ctx.gen_obligations += len(SRC_THEOREMS)
+        if len(ctx.broken_obligations) > n0:
+            b = ctx.broken_obligations[-1]
+            names = broken_theorems(b.get("errors", []), "MenpoModel/GenProps/C18Src.lean")
+            b["obligation"] = ("translated source = Core model: " + (", ".join(names) if names else
+                               "the translated definitions no longer elaborate / are untranslatable"))
+            if why:
+                b["untranslatable"] = why
+            ctx._c18_broken_src = names or ["*"]
+    return ok
+
+
 def corpus_cases():
     """hand-minimised cases kept from earlier findings (run first on every run)"""
     ones = lambda c, h, w: [[[1.0] * w for _ in range(h)] for _ in range(c)]  # noqa
@@ -1535,12 +1811,33 @@ def explore(run, n_wrap, n_norm, n_sweep=0, model=True):
         normaliser_case(run, gen_normaliser_spec(rng, zero), model)
 
 
+SEARCH_FOCUS = [("Daisy", ["daisy"]), ("Gradient", ["gradient", "igo", "es", "daisy"]), ("Igo", ["igo", "double_igo"]),
+                ("Es", ["es"]), ("Gaussian", ["gaussian_filter"]), ("NoOp", ["no_op"]), ("SumChannels", ["sum_channels"]),
+                ("Rebuild", ["daisy", "syn_subsample", "syn_crop", "syn_upsample", "syn_window"]),
+                ("Ndfeature", ["daisy", "syn_subsample", "gradient", "no_op", "sum_channels"]),
+                ("Winit", ["syn_window"]), ("Centres", ["syn_window"]), ("SampleMask", ["syn_window"]),
+                ("Imgfeature", ["normalize"]), ("Normalize", ["normalize", "normalize_std", "normalize_norm", "normalize_var"]),
+                ("Decorators", ["normalize", "normalize_std", "normalize_norm", "normalize_var"]),
+                ("Defaults", ["normalize", "normalize_std", "daisy", "igo"])]
+
+
 def search(ctx):
     """directed search after a broken tie: oracle only, many more cases, emphasis on the branches the wrappers and the
-    normalisers decide (size-changing features, masks, landmark groups, zero scales)"""
+    normalisers decide (size-changing features, masks, landmark groups, zero scales) — and first of all on the features
+    whose translated source no longer equals the model (the names of the broken equalities say which)"""
     r = Run(ctx)
     before = ctx.evaluations
     rng = ctx.rng
+    broken = getattr(ctx, "_c18_broken_src", None) or []
+    focus = sorted({f for key, feats in SEARCH_FOCUS for f in feats if any(key in n for n in broken)})
+    if focus:
+        ctx.notes["search_focus"] = focus
+        wrap = [f for f in focus if f not in NORMALISERS] or ["daisy"]
+        for i in range(300):
+            if any(f in NORMALISERS for f in focus) and i % 2 == 0:
+                normaliser_case(r, gen_normaliser_spec(rng, [None, "all", "channel"][i % 3]), model=False)
+            else:
+                wrapper_case(r, gen_wrapper_spec(rng, wrap), model=False)
     for _ in range(400):
         wrapper_case(r, gen_wrapper_spec(rng, ["daisy", "syn_subsample", "syn_crop", "syn_upsample", "syn_window", "compose",
                                                "gradient", "igo", "es", "gaussian_filter", "no_op", "sum_channels"]), model=False)
@@ -1553,12 +1850,14 @@ def search(ctx):
 
 
 def run(ctx):
-    if generated(ctx):
-        common.prepare_lean(ctx, PROP, IMPORTS, THEOREMS, targets=TARGETS)
-    else:
-        # the measured effect table no longer satisfies its obligations: audit what still builds, then let the oracle
-        # look for an input on which the changed behaviour shows
-        common.prepare_lean(ctx, PROP, IMPORTS[:1], [t for t in THEOREMS if ".GenProps." not in t])
+    ok_table = generated(ctx)
+    ok_src = generated_source(ctx)
+    # audit what builds: a broken regenerated obligation is followed by the oracle's directed search, not by exit 2
+    imports = [IMPORTS[0]] + ([IMPORTS[1]] if ok_table else []) + (SRC_IMPORTS if ok_src else [])
+    theorems = [t for t in THEOREMS if (".GenProps.C18Src." not in t or ok_src)
+                and (".GenProps.C18." not in t or ok_table)]
+    targets = ["MenpoModel.Props.C18", "MenpoModel.Drive.C18"] + imports[1:]
+    common.prepare_lean(ctx, PROP, imports, theorems, targets=targets)
     have, missing = available_features()
     ctx.notes["features_covered"] = have + ["compose", "syn_subsample", "syn_crop", "syn_upsample", "syn_window"]
     ctx.notes["features_not_importable"] = missing
